@@ -76,6 +76,14 @@ impl Tx {
             }
         }
 
+        // No output may be spent by two inputs of the same transaction
+        let mut spent: HashSet<&OutPoint> = HashSet::with_capacity(self.inputs.len());
+        for tx_in in self.inputs.iter() {
+            if !spent.insert(&tx_in.prev_output) {
+                return Err(ChainGangError::BadData("Duplicate input".to_string()));
+            }
+        }
+
         // Check that lock_time <= INT_MAX because some clients interpret this differently
         if self.lock_time > 2_147_483_647 {
             return Err(ChainGangError::BadData("Lock time too large".to_string()));
